@@ -753,6 +753,20 @@ func runC13(tier string, seed int64, outdir string, replay string) error {
 			return err
 		}
 	}
+	// ---- corpus: the observation behind C13_expired_never_during_a_renewal_refuted ----
+	// cached expired certificate: handshake 0 becomes the renewal worker, handshake 1 waits for it, the
+	// issuer fails (or the context is cancelled): handshake 1 re-enters and is served the cached expired
+	// certificate with a nil error; a third handshake then starts a new renewal. (The interleaving in
+	// which the third handshake is already at the issuer when handshake 1 re-enters is finer than the
+	// gates of this harness; the model covers it.)
+	for i, out := range []string{"fail", "cancel"} {
+		acts := []c13Action{{Kind: "arrive", T: 0}, {Kind: "arrive", T: 1}, {Kind: "release", T: 0, Allow: &yes},
+			{Kind: "release", T: 0}, {Kind: "release", T: 0, Outcome: out}, {Kind: "arrive", T: 2}}
+		cs := &c13Case{Scenario: "cached-expired", Threads: 3, Seed: int64(300 + i), Actions: acts}
+		if err := c13RunCase(w, cs, map[string]any{"class": "expired-served-after-failed-renewal", "scenario": cs.Scenario, "outcome": out}); err != nil {
+			return err
+		}
+	}
 	rr := rand.New(rand.NewSource(seed))
 	n := 40
 	if tier == "thorough" {
